@@ -923,39 +923,59 @@ int _vnacal_new_solve_internal(vnacal_new_t *vnp)
 
     /*
      * If we solved for unknown parameters, store them into the
-     * corresponding parameter structures.
+     * corresponding parameter structures.  First allocate the new
+     * frequency vector of every parameter whose number of frequencies
+     * changes, so that an allocation failure leaves all parameters as
+     * they were; then commit, which cannot fail.
      */
-    for (vnacal_new_parameter_t *vnprp = vnp->vn_unknown_parameter_list;
-	    vnprp != NULL; vnprp = vnprp->vnpr_next_unknown) {
-	vnacal_parameter_t *vpmrp = vnprp->vnpr_parameter;
-	int index = vnprp->vnpr_unknown_index;
+    {
+	double *new_frequency_vector[MAX(unknown_parameters, 1)];
 
-	assert(vpmrp->vpmr_type == VNACAL_UNKNOWN ||
-	       vpmrp->vpmr_type == VNACAL_CORRELATED);
-	free((void *)vpmrp->vpmr_gamma_vector);
-	vpmrp->vpmr_gamma_vector = NULL;
-	if (vpmrp->vpmr_frequencies != frequencies) {
-	    free((void *)vpmrp->vpmr_frequency_vector);
-	    vpmrp->vpmr_frequency_vector = NULL;
-	    vpmrp->vpmr_frequencies = 0;
-	    if (frequencies != 0) {
-		if ((vpmrp->vpmr_frequency_vector = calloc(frequencies,
+	for (int i = 0; i < unknown_parameters; ++i) {
+	    new_frequency_vector[i] = NULL;
+	}
+	for (vnacal_new_parameter_t *vnprp = vnp->vn_unknown_parameter_list;
+		vnprp != NULL; vnprp = vnprp->vnpr_next_unknown) {
+	    vnacal_parameter_t *vpmrp = vnprp->vnpr_parameter;
+	    int index = vnprp->vnpr_unknown_index;
+
+	    if (frequencies != 0 && vpmrp->vpmr_frequencies != frequencies) {
+		if ((new_frequency_vector[index] = calloc(frequencies,
 				sizeof(double))) == NULL) {
 		    _vnacal_error(vcp, VNAERR_SYSTEM,
 			    "calloc: %s", strerror(errno));
+		    for (int i = 0; i < unknown_parameters; ++i) {
+			free((void *)new_frequency_vector[i]);
+		    }
 		    goto out;
 		}
-		vpmrp->vpmr_frequencies = frequencies;
 	    }
 	}
-	if (frequencies != 0) {
-	    (void)memcpy((void *)vpmrp->vpmr_frequency_vector,
-		    (void *)vnp->vn_frequency_vector,
-		    frequencies * sizeof(double));
+	for (vnacal_new_parameter_t *vnprp = vnp->vn_unknown_parameter_list;
+		vnprp != NULL; vnprp = vnprp->vnpr_next_unknown) {
+	    vnacal_parameter_t *vpmrp = vnprp->vnpr_parameter;
+	    int index = vnprp->vnpr_unknown_index;
+
+	    assert(vpmrp->vpmr_type == VNACAL_UNKNOWN ||
+		   vpmrp->vpmr_type == VNACAL_CORRELATED);
+	    free((void *)vpmrp->vpmr_gamma_vector);
+	    vpmrp->vpmr_gamma_vector = NULL;
+	    if (new_frequency_vector[index] != NULL ||
+		    vpmrp->vpmr_frequencies != frequencies) {
+		free((void *)vpmrp->vpmr_frequency_vector);
+		vpmrp->vpmr_frequency_vector = new_frequency_vector[index];
+		new_frequency_vector[index] = NULL;
+		vpmrp->vpmr_frequencies = frequencies;
+	    }
+	    if (frequencies != 0) {
+		(void)memcpy((void *)vpmrp->vpmr_frequency_vector,
+			(void *)vnp->vn_frequency_vector,
+			frequencies * sizeof(double));
+	    }
+	    assert(vnss.vnss_p_vector[index] != NULL);
+	    vpmrp->vpmr_gamma_vector = vnss.vnss_p_vector[index];
+	    vnss.vnss_p_vector[index] = NULL;
 	}
-	assert(vnss.vnss_p_vector[index] != NULL);
-	vpmrp->vpmr_gamma_vector = vnss.vnss_p_vector[index];
-	vnss.vnss_p_vector[index] = NULL;
     }
 
     /*
